@@ -1505,7 +1505,8 @@ impl ConnectionHandler for VarlinkService {
                     let method: String = String::from(req.method.as_ref());
                     let mut call = Call::new(writer, &req);
                     call.reply_interface_not_found(Some(method))?;
-                    return Ok((Vec::new(), None));
+                    // keep serving: further requests may already be buffered
+                    continue;
                 }
                 Some(x) => x,
             };
